@@ -1,5 +1,5 @@
 import IdspModel.Lemmas.Atan2Tab
-/-! `atani` table, chunk 4 of 10: quotient fields 32768 … 40960 (complete range, evaluated by the kernel). -/
+/-! `atani` table, chunk 4 of 8: quotient fields 32768 … 40960 (complete range, evaluated by the kernel). -/
 namespace Idsp
 
 theorem atanTab4 : atanRun 32768 8193 = true := by decide +kernel
